@@ -65,3 +65,24 @@ def _vc1(repo, mod):
     fn = repo.func("pynguin.ga.computation_cache", "ComputationCache.clone")
     k = find_node(fn, lambda n: isinstance(n, ast.keyword) and n.arg == "coverage_cache")
     return replace_node(mod, k.value, "self._coverage_cache")
+
+
+@variant("C12", "missing-values-not-computed-after-registration", CC, "C12.laws", "unchanged chromosome: only the requested key triggers a computation, a later registration is never computed")
+def _v40(repo, mod):
+    fn = repo.func(CC, "ComputationCache._check_cache")
+    t = find_node(fn, lambda n: isinstance(n, ast.BoolOp) and isinstance(n.op, ast.Or) and "len(cache) != len(funcs)" in norm(n))
+    return replace_node(mod, t, "(only is not None and only not in cache)")
+
+
+@variant("C12", "fitness-sum-memoised", CC, "C12.laws", "sum of the fitness values memoised and not reset when a value is added")
+def _v41(repo, mod):
+    from sa.selftest.harness import text_edit
+    src = text_edit(mod, "        return sum(self._fitness_cache.values())\n", "        if getattr(self, '_total', None) is None:\n            self._total = sum(self._fitness_cache.values())\n        return self._total\n")
+    return src.replace("        self._fitness_cache.clear()\n", "        self._fitness_cache.clear()\n        self._total = None\n", 1)
+
+
+@variant("C12", "twin-condition-reordered", CC, None, "disjuncts of the missing-value test swapped")
+def _v42(repo, mod):
+    fn = repo.func(CC, "ComputationCache._check_cache")
+    t = find_node(fn, lambda n: isinstance(n, ast.BoolOp) and isinstance(n.op, ast.Or) and "len(cache) != len(funcs)" in norm(n))
+    return replace_node(mod, t, "(only is not None and only not in cache) or len(funcs) != len(cache)")
